@@ -137,6 +137,9 @@ func (w *FSWorld) onHook(op, path string) {
 	case "rename":
 		// the sink renames the plain active file to a timestamped name
 		old := filepath.Join(w.Sub, fsBase)
+		if _, err := os.Lstat(path); err != nil {
+			break // the rename itself failed (nothing under the plain name any more): nothing changed on disk
+		}
 		if f := w.find(old); f != nil {
 			f.path = path
 			f.rotated, f.byRename = true, true
@@ -250,6 +253,14 @@ func (w *FSWorld) Write(n int) string {
 	_, err := w.FS.Process(context.Background(), e)
 	t1 := w.clock()
 	if err != nil {
+		if w.mActive != nil && w.mActive.external && rotateDue && w.Cfg.TSOnly {
+			// the environment moved the plain-named active file away and the sink has not been told to
+			// Reopen: a rotation (rename of the plain name) cannot succeed. The write is refused, not
+			// acknowledged; the sink has closed its descriptor and starts a fresh file next time.
+			w.mOpen = false
+			w.checkContents(fmt.Sprintf("after write #%d was refused", w.evNo))
+			return w.viol
+		}
 		w.fail("Process returned an error on a healthy file system: %v", err)
 		return w.viol
 	}
@@ -437,6 +448,16 @@ func (w *FSWorld) ExternalRotate() string {
 	return w.Reopen()
 }
 
+// ExternalRename moves the active file away without telling the sink (the first half of what
+// logrotate does): the sink's open descriptor keeps writing into the moved file until a Reopen.
+func (w *FSWorld) ExternalRename() string {
+	if w.mActive == nil || w.mActive.removed || !w.mOpen {
+		w.beginOp()
+		return w.viol
+	}
+	return w.externalRename()
+}
+
 func (w *FSWorld) externalRename() string {
 	w.beginOp()
 	if w.mActive == nil || w.mActive.removed {
@@ -447,6 +468,15 @@ func (w *FSWorld) externalRename() string {
 	if err := os.Rename(w.mActive.path, np); err != nil {
 		w.fail("harness: external rename failed: %v", err)
 		return w.viol
+	}
+	if w.mActive.external {
+		// moved away before and moved again now: the earlier name is gone by the harness's own doing
+		for i, b := range w.bystanders {
+			if b == w.mActive.path {
+				w.bystanders = append(w.bystanders[:i:i], w.bystanders[i+1:]...)
+				break
+			}
+		}
 	}
 	w.mActive.path = np
 	w.mActive.external = true
